@@ -36,6 +36,7 @@ enum
     K_SLEEP,
     K_GET,
     K_SCHED,
+    K_BADFRAME,    // caller B: a frame call with a buffer that is too small (the device reports an error)
     K_COUNT
 };
 
@@ -43,7 +44,7 @@ const VhKindSpec kKinds[K_COUNT] = {
     { "CFG", 1, 255, 0, 0, 0 },          { "SET", 5, 255, 65535, 65535, 65535 }, { "START", 4, 0, 0, 0, 0 },
     { "FRAME", 10, 3, 0, 0, 0 },         { "TRIGGER", 5, 0, 0, 0, 0 },           { "TRIG_FRAME", 4, 0, 0, 0, 0 },
     { "STOP", 3, 3, 0, 0, 0 },           { "SLEEP", 2, 255, 0, 0, 0 },           { "GET", 2, 0, 0, 0, 0 },
-    { "SCHED", 4, 255, 65535, 65535, 65535 },
+    { "SCHED", 4, 255, 65535, 65535, 65535 }, { "BADFRAME", 1, 0, 0, 0, 0 },
 };
 
 enum
@@ -67,6 +68,7 @@ enum
     CL_PCT,
     CL_PREEMPTED,
     CL_F32,
+    CL_FAILED_FRAME_CALL,
 };
 
 const VhSpec kSpec = {
@@ -77,7 +79,7 @@ const VhSpec kSpec = {
     { "C17", "C18", nullptr },
     { "camera_random", "camera_sin", "camera_empty", "binning_gt1", "binning_rejected", "multibyte_type_odd_width", "shape_clamped",
       "frame_delivered", "two_configurations", "two_runs", "trigger_mode", "stop_while_frame_call_blocked", "triggers_interleaved_with_frames",
-      "lockstep_trigger_frame", "frame_call_after_stop", "gap_in_hardware_ids", "pct_schedule", "preemptions", "f32", nullptr },
+      "lockstep_trigger_frame", "frame_call_after_stop", "gap_in_hardware_ids", "pct_schedule", "preemptions", "f32", "failed_frame_call_then_restart", nullptr },
     { "C17 non-trivial: >=1 frame fetched AND (binning > 1 or a multi-byte type with an odd width), or >=2 accepted configurations on one camera",
       "C18 non-trivial: >=2 runs on one camera, or a stop issued while a frame call was blocked, or >=3 triggers interleaved with frame calls",
       nullptr },
@@ -127,6 +129,7 @@ struct Ctx
     size_t a_next = 0;      // index of the frame op caller A is at
     bool graceful_end = true;
     bool single_caller = false;
+    bool needs_reset = false; // after a failed frame call the camera has to be configured again
     bool fetched_bin_or_odd = false;
 };
 
@@ -309,6 +312,13 @@ do_set(Ctx& x, const VhTok& t)
 void
 do_start(Ctx& x)
 {
+    if (x.needs_reset && !x.running && !x.c.ended) {
+        CameraProperties p = x.model;
+        x.c.trace("B: SET (same configuration again, after the failed frame call)");
+        if (camera_set(x.cam, &p) == Device_Ok)
+            x.configured = true;
+        x.needs_reset = false;
+    }
     if (!x.configured || x.running || x.c.ended)
         return;
     x.c.trace("B: START (run %zu)%s", x.runs.size(), x.model.input_triggers.frame_start.enable ? "  [software trigger enabled]" : "");
@@ -512,6 +522,35 @@ actor_b(void*)
                 break;
             }
             case K_STOP: do_stop(x, (op.t.a & 3) != 0); break;
+            case K_BADFRAME: {
+                // A frame call the device rejects (buffer smaller than the image).  The HAL stops the
+                // camera on such a failure; the next run must start counting from zero again.
+                if (!x.running || !x.configured)
+                    break;
+                wait_for_a(x);
+                size_t nb = (size_t)x.mshape.dims.width * x.mshape.dims.height * bpp(x.mshape.type);
+                if (nb < 2)
+                    break;
+                size_t small = nb - 1;
+                uint8_t* buf = (uint8_t*)malloc(small);
+                ImageInfo info;
+                memset(&info, 0, sizeof info);
+                x.c.trace("B: FRAME with a %zu-byte buffer for a %zu-byte image", small, nb);
+                x.running = false; // whatever happens, the run is over for the oracle's purposes
+                DeviceStatusCode r = camera_get_frame(x.cam, buf, &small, &info);
+                free(buf);
+                if (r == Device_Ok) {
+                    x.c.fail("C17", "short-buffer-accepted", "frame", "camera_get_frame accepted a buffer smaller than the image");
+                    break;
+                }
+                x.c.cls(CL_FAILED_FRAME_CALL);
+                if (!x.runs.empty())
+                    x.runs.back().stopped = true;
+                // the HAL has stopped the camera: configure again before the next start
+                x.configured = false;
+                x.needs_reset = true;
+                break;
+            }
             case K_SLEEP: {
                 struct clock c;
                 clock_init(&c);
